@@ -144,7 +144,7 @@ pub mod proofs {
     #[kani::proof]
     #[kani::stub(alloc::alloc::alloc, c03_alloc)]
     #[kani::stub(alloc::alloc::dealloc_nonnull, c03_dealloc)]
-    #[kani::unwind(7)]
+    #[kani::unwind(10)]
     pub fn c03_lr_delivery_vs_mutator() {
         // (set before the state is built: the sequential stores of the registrations
         // must reach the round-0 memory the LR part starts from)
